@@ -18,6 +18,11 @@ let show_seq (tag: string) (s: byte lf) (err: bool) : unit =
   Printf.printf "%s wb=%s cnt=%s sop=%s lr=%s lf=%s nfl=%d err=%d\n" tag (string_of_z s.wb) (string_of_z s.cnt)
     (string_of_z s.sop) (string_of_z s.lastRoll) (string_of_z s.lastFlush) (int_of_nat s.nflush) (if err then 1 else 0)
 
+(* a file: creation second, size, checksum, and the time stamp the model computes for its name *)
+let string_of_bytes (l: byte list) : string = String.concat "" (List.map (fun b -> String.make 1 (Char.chr (int_of_byte b))) l)
+let print_file ((nm, d): z * byte list) : unit =
+  Printf.printf "f %s %d %s %s\n" (string_of_z nm) (List.length d) (fnv_of_bytes d) (string_of_bytes (xstamp nm))
+
 let parse_script (s: string) : wres list =
   if s = "-" then [] else
   List.map (fun item ->
@@ -41,13 +46,14 @@ let run_seq (w: string list) : unit =
          let (s', err) = lf_append c (bytes_of_spec d) (parse_script script) (z_of_string now) (z_of_string now2) !s in
          s := s'; show_seq "A" !s err
      | ["F"] -> s := do_flush !s; show_seq "F" !s false
+     | ["C"] -> s := do_close !s; show_seq "C" !s false     (* ~LogFile *)
      | ["R"; now] ->
          let (s', r) = roll (z_of_string now) !s in
          s := s'; show_seq (if r then "R 1" else "R 0") !s false
      | _ -> Printf.printf "BADOP %s\n" line);
     flush stdout
   done;
-  List.iter (fun (nm, d) -> Printf.printf "f %s %d %s\n" (string_of_z nm) (List.length d) (fnv_of_bytes d)) (files_in_order !s);
+  List.iter print_file (files_in_order !s);
   print_string "end\n"; flush stdout
 
 (* ---- async ---- *)
@@ -147,6 +153,63 @@ let run_async (w: string list) : unit =
   if !s.be.fault then print_string "FAULT\n";
   print_string "end\n"; flush stdout
 
+(* ---- trace validation of the thread-safe LogFile runs: the sections the real threads executed, in the order
+   in which they held LogFile's mutex (with the clock values they read), replayed on the monitor model ---- *)
+let pat = "0123456789ABCDEFGHIJKLMNOPQRSTUVWXYZabcdefghijklmnopqrstuvwxyz+/"
+let make_record (t: int) (seq: int) (len: int) : byte list =
+  let off = (seq * 7 + t * 13) mod 64 in
+  let b = Bytes.init len (fun i -> pat.[(off + i) mod 64]) in
+  Bytes.set b 0 (Char.chr (97 + t));
+  if len >= 10 then Bytes.blit_string (Printf.sprintf "%08x" seq) 0 b 1 8;
+  if len >= 2 then Bytes.set b (len - 1) '\n';
+  List.init len (fun i -> byte_of_int (Char.code (Bytes.get b i)))
+
+let run_lftrace (w: string list) : unit =
+  let id = List.nth w 1 in
+  let threads = int_of_string (hdr_get w "threads" "1") in
+  let n = int_of_string (hdr_get w "n" "0") in
+  let spec = hdr_get w "lens" "100" in
+  let c = { rollSize = z_of_string (hdr_get w "roll" "1000"); flushInterval = z_of_string (hdr_get w "flush" "3");
+            checkEveryN = z_of_string (hdr_get w "every" "1024") } in
+  let now0 = z_of_string (hdr_get w "now" "1000") in
+  (* read the trace *)
+  let trace = ref [] in
+  let fin = ref false in
+  while not !fin do
+    match split_ws (input_line stdin) with
+    | ["end"] -> fin := true
+    | ["L"; t; i; _; v1; v2] -> trace := (int_of_string t, int_of_string i, z_of_string v1, z_of_string v2) :: !trace
+    | _ -> ()
+  done;
+  let trace = List.rev !trace in
+  (* the programs: thread t's k-th call is the append of its k-th record, with the clock values of its k-th section *)
+  let times = Array.make (max threads 1) [] in
+  List.iter (fun (t, _, v1, v2) -> if t >= 0 && t < threads then times.(t) <- (v1, v2) :: times.(t)) trace;
+  let lens_spec t = if String.length spec > 0 && spec.[0] = '@' then
+      (match String.split_on_char ':' (String.sub spec 1 (String.length spec - 1)) with
+       | [lo; hi; seed] -> Printf.sprintf "@%s:%s:%d" lo hi ((int_of_string seed + t * 977) land 0xffffffff)
+       | _ -> spec) else spec in
+  let progs = List.init threads (fun t ->
+    let tm = Array.of_list (List.rev times.(t)) in
+    List.init (min n (Array.length tm)) (fun i ->
+      let (v1, v2) = tm.(i) in
+      MApp (make_record t i (min (len_at (lens_spec t) i) 8000), [], v1, v2))) in
+  let s = ref (xm_init now0 progs) in
+  let next = Array.make (max threads 1) 0 in
+  let ok = ref true and k = ref 0 in
+  List.iter (fun (t, i, _, _) ->
+    if !ok then begin
+      if t < 0 || t >= threads || i <> next.(t) then ok := false
+      else (match xm_section c (nat_of_int t) !s with
+            | Some s' -> s := s'; next.(t) <- i + 1; incr k
+            | None -> ok := false)
+    end) trace;
+  Printf.printf "case %s lftrace\n" id;
+  if !ok then Printf.printf "ACCEPT sections=%d left=%d\n" !k (int_of_nat (xm_left !s))
+  else Printf.printf "REJECT at=%d\n" !k;
+  List.iter print_file (xm_files !s);
+  print_string "end\n"; flush stdout
+
 let run_free (w: string list) : unit =
   let id = List.nth w 1 in
   let threads = int_of_string (hdr_get w "threads" "1") in
@@ -169,6 +232,7 @@ let () =
     | "case" :: id :: "async" :: _ as w -> run_async w
     | "case" :: id :: "free" :: _ as w -> run_free w
     | "case" :: id :: "lfree" :: _ as w -> run_free w
+    | "case" :: id :: "lftrace" :: _ as w -> run_lftrace w
     | "case" :: id :: _ -> Printf.printf "case %s BADKIND\nend\n" id; flush stdout
     | _ -> ()
   done with End_of_file -> ())
